@@ -72,6 +72,29 @@ def _mentions(val, name):
     return False
 
 
+def _outside_stats(val, name):
+    """does ("in", name) occur outside the argument of a statistic?"""
+    if isinstance(val, tuple):
+        if val == ("in", name):
+            return True
+        if val and val[0] in ("mean", "std", "var"):
+            return False
+        return any(_outside_stats(x, name) for x in val)
+    return False
+
+
+def _kept_conditions(val):
+    out = []
+    def walk(v):
+        if isinstance(v, tuple):
+            if v and v[0] == "kept" and len(v) > 2:
+                out.append(v[2])
+            for x in v:
+                walk(x)
+    walk(val)
+    return out
+
+
 def deductive(res, agg):
     fn = "Preprocessor.transform/inverse_transform_scores_unseen"
     for cfg, kw in CONFIGS.items():
@@ -112,6 +135,9 @@ def deductive(res, agg):
             agg.vc(fn, "row locality: no operation that mixes samples of the new data (reductions over samples, sorting, joins)",
                    struct_vc(not ({"reindex", "common"} & ops_in(new2d.val)) and not [e for e in o["events_transform"] if e[0] in ("inner-join", "outer-join")],
                              f"{ops_in(new2d.val)} {o['events_transform'][:2]}"), cfg)
+            conds = _kept_conditions(new2d.val)
+            agg.vc(fn, "which samples/features of new data are dropped is decided from the new data itself",
+                   struct_vc(all(not _outside_stats(cv, "X") and _mentions(cv, "Xnew") for cv in conds), repr(conds)[:200]), cfg)
             agg.vc(fn, "2-d matrix for the model has dims (sample, feature)", struct_vc(new2d.dims == ("§S", "§F"), str(new2d.dims)), cfg)
             agg.vc(fn, "transform does not modify the user's data object", struct_vc(not [e for e in o["events_transform"] if e[0] == "mutate"], str(o["events_transform"][:2])), cfg)
         if nret == 0:
